@@ -134,8 +134,10 @@ func (its *PushPullHandler) initialize(retCh chan *model.PushPullPack) errors.Or
 func (its *PushPullHandler) finalize(locked bool) {
 	if r := recover(); r != nil {
 		its.ctx.L().Errorf("recover panic [%v]: %v", r, string(debug.Stack()))
-
-		return
+		its.err = errors.PushPullAbortionOfServer.New(its.ctx.L(), fmt.Sprintf("panic: %v", r))
+		if its.resPushPullPack == nil {
+			its.resPushPullPack = &model.PushPullPack{Key: its.Key, DUID: its.DUID}
+		}
 	}
 	if locked {
 		defer its.lock.Unlock()
